@@ -213,6 +213,10 @@ type termEngine struct {
 	// only predecessor is the one recorded here (phi nodes and memory joins
 	// pick that edge).
 	pathPred map[*ssa.BasicBlock]*ssa.BasicBlock
+	inlining map[*ssa.Function]bool
+	// constIdx, when set, fixes SSA values (loop indices) to constants: used
+	// to instantiate one iteration of a constant-bound loop
+	constIdx map[ssa.Value]int64
 }
 
 // onPath returns an engine that evaluates along the given block sequence.
@@ -278,6 +282,9 @@ func paramIndex(p *ssa.Parameter) int {
 func (e *termEngine) of(v ssa.Value) *Term {
 	if v == nil {
 		return nil
+	}
+	if n, ok := e.constIdx[v]; ok {
+		return tInt(n)
 	}
 	if t, ok := e.cache[v]; ok {
 		return t
@@ -414,20 +421,28 @@ func (e *termEngine) compute(v ssa.Value) *Term {
 }
 
 // inlineTrivial: a call of an in-package function that is one straight-line
-// block of pure arithmetic on its parameters (no loads, stores, calls or
-// allocation) and returns one value is the same as that expression on the
-// arguments; the call disappears from terms and facts.
+// block computing one value of a basic type (integer, bool, string) from its
+// parameters without stores or allocation is the same as that expression on
+// the arguments (loads and calls in it appear as they would if the expression
+// were written at the call site); the call disappears from terms and facts.
+// Instruction-level analyses (effects, bounds) still see the call itself.
 func (e *termEngine) inlineTrivial(c *ssa.CallCommon) *Term {
 	h := c.StaticCallee()
 	if h == nil || c.IsInvoke() || !e.P.inPkg(h) || len(h.Blocks) != 1 || h.Signature.Results().Len() != 1 || len(h.FreeVars) != 0 {
 		return nil
 	}
+	if _, basic := h.Signature.Results().At(0).Type().Underlying().(*types.Basic); !basic {
+		return nil
+	}
+	if e.inlining[h] {
+		return nil
+	}
 	var ret *ssa.Return
 	for _, in := range h.Blocks[0].Instrs {
 		switch x := in.(type) {
-		case *ssa.BinOp, *ssa.Convert, *ssa.ChangeType, *ssa.DebugRef:
-		case *ssa.UnOp:
-			if x.Op == token.MUL || x.Op == token.ARROW {
+		case *ssa.BinOp, *ssa.Convert, *ssa.ChangeType, *ssa.DebugRef, *ssa.UnOp, *ssa.FieldAddr, *ssa.Field, *ssa.Extract:
+		case *ssa.Call:
+			if x.Call.StaticCallee() == h {
 				return nil
 			}
 		case *ssa.Return:
@@ -443,6 +458,11 @@ func (e *termEngine) inlineTrivial(c *ssa.CallCommon) *Term {
 	for i, a := range c.Args {
 		m[strconv.Itoa(i)] = e.of(a)
 	}
+	if e.inlining == nil {
+		e.inlining = map[*ssa.Function]bool{}
+	}
+	e.inlining[h] = true
+	defer delete(e.inlining, h)
 	return e.P.terms.of(ret.Results[0]).subst(m)
 }
 
@@ -656,6 +676,9 @@ func (e *termEngine) addrPath(addr ssa.Value) (root ssa.Value, path []string) {
 				if n, ok := constInt64(c.Value); ok {
 					idx = "[" + strconv.FormatInt(n, 10) + "]"
 				}
+			}
+			if n, ok := e.constIdx[a.Index]; ok {
+				idx = "[" + strconv.FormatInt(n, 10) + "]"
 			}
 			path = append([]string{idx}, path...)
 			addr = a.X
@@ -1079,7 +1102,16 @@ func (s *memState) apply(cur *Term, w *memWrite) *Term {
 		if isPrefix(s.path, w.path) {
 			return updatePath(cur, w.path[len(s.path):], val)
 		}
-		// wildcard overlap
+		// wildcard overlap: the store may or may not hit the location read;
+		// when the written path covers the read one up to index wildcards the
+		// value is the old one or the stored one
+		if len(w.path) <= len(s.path) && pathOverlap(w.path, s.path) {
+			nv := projectPath(val, s.path[len(w.path):])
+			if cur.eq(nv) {
+				return cur
+			}
+			return &Term{Op: "phi", Args: []*Term{cur, nv}}
+		}
 		return T("dirty", "store with non-constant index at "+s.e.P.instrPos(w.instr))
 	}
 	// opaque write by a call: mod(call, ptr) is "the value at ptr after call"
